@@ -130,6 +130,11 @@ def check_bounded_read_loop(R, f, rid_prefix, loop, counter, buff_names, require
             reach = g.reachable_from(empty_succ) if empty_succ else set()
             if eof_must == 'leave':
                 bad = [n for n in reach if n is cn or n in ys]
+                if bad and empty_succ:
+                    # the loop may be left through a flag (`exhausted = True` ... `while remaining > 0 and not exhausted`): follow the flag
+                    from ..paths import Explorer
+                    feas = {n_ for (n_, _s) in Explorer(f).walk(empty_succ)}
+                    bad = [n for n in bad if n in feas]
                 okc = not bad
                 det = '' if okc else 'after an empty read the generator can yield or read again'
             else:
